@@ -50,7 +50,10 @@ def generate(rng):
     dk = rng.choice(KINDS)
     call = True if dk in ("AmericanBinaryOption", "LookbackOption") else rng.chance(0.6)
     steps = rng.nsteps([1, 2, 3, 5, 10, 20])
-    d = {"id": "d0", "kind": dk, "underlier": "p0", "params": {"call": call, "strike": rng.choice([0.8, 0.95, 1.0, 1.0, 1.05, 1.25]),
+    strike0 = rng.choice([0.8, 0.95, 1.0, 1.0, 1.05, 1.25])
+    if flat and rng.chance(0.4):
+        strike0 = 1.0   # a flat market sitting exactly on the strike: infinite gamma
+    d = {"id": "d0", "kind": dk, "underlier": "p0", "params": {"call": call, "strike": strike0,
                                                              "maturity": steps * dt}}
     lk = rng.choice(KINDS)
     listed = {"id": "d1", "kind": lk, "underlier": "p0",
